@@ -315,7 +315,10 @@ class VectorContainer:
             self.__dict__['_' + name] = value_as_array
 
         else:
-            self.__dict__['_' + name][:] = value
+            series = self.__dict__['_' + name]
+            updated = series.copy()
+            updated[:] = value
+            series[...] = updated
 
     def _locate_period_in_span(self, period: Hashable) -> int:
         """Return the index position of `period` in `self.span`.
@@ -477,7 +480,13 @@ class VectorContainer:
             # Modify the relevant subset
             if isinstance(index, slice):
                 start_location, stop_location, step = self._resolve_period_slice(index)
-                self.__dict__['_' + name][start_location:stop_location:step] = value
+                # Assign into a copy first: NumPy copies element by element, so a
+                # value that cannot be cast part-way through must not leave the
+                # series half written
+                series = self.__dict__['_' + name]
+                updated = series.copy()
+                updated[start_location:stop_location:step] = value
+                series[...] = updated
                 return
 
             location = self._locate_period_in_span(index)
